@@ -165,6 +165,10 @@ def _validate_union(datum, schema, named_schemas, parent_ns, raise_errors, optio
     validate as True.
     """
     if isinstance(datum, tuple) and not options.get("disable_tuple_notation"):
+        if len(datum) != 2:
+            # Not a (name, value) pair, e.g. array data given as a tuple that is
+            # being tried against a union
+            return False
         (name, datum) = datum
         for candidate in schema:
             extracted_type = extract_record_type(candidate)
